@@ -13,6 +13,10 @@ func (t *tr) checkObjWritable(o *object) {
 		t.fail("write to %s, which belongs to a parameter: the caller-visible effect has no value-level counterpart", o.hint)
 	case oParam:
 		t.writes[o.pidx] = true
+		if t.objStored == nil && !t.recvMode { // (__recv ASSUMES a receiver disjoint from the arguments; __recv_aliased shares the object)
+			t.log = append(t.log, logEnt{undo: func() { t.objStored = nil }})
+			t.objStored = o
+		}
 	}
 	if o.owner != nil {
 		t.unwhole(o.owner)
@@ -159,8 +163,13 @@ func (t *tr) callNamed(pn, key string, recv *val, ce *ast.CallExpr) callRes {
 		argv = append(argv, t.recvAdjust(sm.params[0].t, recv))
 	}
 	nl := len(t.lines)
+	for _, v := range argv {
+		defer t.hold(v)()
+	}
 	for i, a := range ce.Args {
-		argv = append(argv, t.eval(a))
+		v := t.eval(a)
+		argv = append(argv, v)
+		defer t.hold(v)() // (by-value arguments already evaluated keep their names)
 		if i > 0 && len(t.lines) != nl {
 			t.fail("argument %d of %s.%s has side effects: evaluation order is not modelled", i, pn, key)
 		}
@@ -210,18 +219,35 @@ func (t *tr) callNamed(pn, key string, recv *val, ce *ast.CallExpr) callRes {
 		u.t = ty
 		return &u
 	}
+	// the result may point to integers of some arguments (p.Y = y; return &p): from here on
+	// neither those arguments nor the result may be written in place
+	shared := func(vals []*val) []*val {
+		if len(sm.resAlias) == 0 {
+			return vals
+		}
+		why := "it may be shared between an argument and the result of " + pn + "." + key
+		for i := range sm.resAlias {
+			t.protect(argv[i], why)
+		}
+		for _, v := range vals {
+			t.protect(v, why)
+		}
+		return vals
+	}
 	if !sm.hasErr {
 		switch {
 		case sm.retAlias >= 0 && sm.identity:
 			return callRes{vals: []*val{retag(argv[sm.retAlias], sm.results[0])}}
 		case sm.retAlias >= 0:
 			t.writeArg(argv[sm.retAlias], coq, false)
-			return callRes{vals: []*val{retag(argv[sm.retAlias], sm.results[0])}}
+			return callRes{vals: shared([]*val{retag(argv[sm.retAlias], sm.results[0])})}
 		case len(sm.results) == 0 && sm.resParam >= 0:
 			t.writeArg(argv[sm.resParam], coq, false)
 			return callRes{}
 		case len(sm.results) == 1:
-			return callRes{vals: []*val{t.mkVal(sm.results[0], coq)}}
+			return callRes{vals: shared([]*val{t.mkVal(sm.results[0], coq)})}
+		case len(sm.results) > 1 && len(sm.resAlias) > 0:
+			t.fail("%s.%s has several results, some of which may point into its arguments: not modelled", pn, key)
 		case len(sm.results) > 1:
 			return callRes{tuple: coq, tupleT: sm.results}
 		}
@@ -235,7 +261,7 @@ func (t *tr) callNamed(pn, key string, recv *val, ce *ast.CallExpr) callRes {
 	case sm.retAlias >= 0:
 		pd.bind = func(name string) []*val {
 			t.writeArg(argv[sm.retAlias], name, true)
-			return []*val{retag(argv[sm.retAlias], sm.results[0])}
+			return shared([]*val{retag(argv[sm.retAlias], sm.results[0])})
 		}
 	case len(sm.results) == 0 && sm.resParam >= 0:
 		pd.hint = sm.params[sm.resParam].name
@@ -247,7 +273,7 @@ func (t *tr) callNamed(pn, key string, recv *val, ce *ast.CallExpr) callRes {
 		pd.unit = true
 		pd.bind = func(string) []*val { return nil }
 	case len(sm.results) == 1:
-		pd.bind = func(name string) []*val { return []*val{t.mkVal(sm.results[0], name)} }
+		pd.bind = func(name string) []*val { return shared([]*val{t.mkVal(sm.results[0], name)}) }
 	default:
 		t.fail("%s.%s: several results besides the error", pn, key)
 	}
